@@ -9,7 +9,7 @@ PKG = "internal/filtering"
 FILES = ["zz_verif_common_test.go", "zz_verif_c17_test.go"]
 ENTRIES = ["add", "seturl", "inject"]
 SHARDS = 6
-ACTIONS = ["AddStep", "SetURLStep", "InjectStep", "RefreshStep", "RemoveStep"]
+ACTIONS = ["AddStep", "SetURLStep", "InjectStep", "RefreshStep", "RemoveStep", "OwnerStep"]
 
 
 def classify(rec):
@@ -93,7 +93,8 @@ def redo(ctx, world, ops):
     patterns, same requests in the same order); returns what the LAST
     operation opened and stored."""
     req = {"root": world["root"], "cwd": world["cwd"], "patterns": world["patterns"] or [],
-           "dirs": world.get("dirs") or [], "files": world.get("files") or [], "ops": ops}
+           "dirs": world.get("dirs") or [], "files": world.get("files") or [],
+           "scribble": world.get("scribble") or [], "ops": ops}
     rin, rout = ctx.path("c17_redo_in.json"), ctx.path("c17_redo.ndjson")
     with open(rin, "w") as fh:
         json.dump(req, fh)
@@ -141,22 +142,25 @@ def make_walks(ctx, edges, rng, max_len, budget):
     initial state (greedy: take an uncovered edge of the current node, else
     go to the nearest node that has one).  budget = number of steps, None =
     until every edge is covered."""
-    def nk(known):
-        return json.dumps(sorted(json.dumps(l, sort_keys=True) for l in known))
+    def nk(known, own):
+        return json.dumps([own, sorted(json.dumps(l, sort_keys=True) for l in known)])
 
     def after(e):
         k = [json.dumps(l, sort_keys=True) for l in e["src"]]
         l = json.dumps(e["loc"], sort_keys=True)
+        own = e["own"]
         if e["act"] in ("add", "seturl", "inject") and l not in k:
             k.append(l)
         elif e["act"] == "remove":
             k = [x for x in k if x != l]
-        return json.dumps(sorted(k))
+        elif e["act"] == "scribble":
+            own = "scribbled"
+        return json.dumps([own, sorted(k)])
 
     by_cfg = {}
     for e in edges:
         g = by_cfg.setdefault(json.dumps(sorted(e["cfg"])), {})
-        g.setdefault(nk(e["src"]), []).append(e)
+        g.setdefault(nk(e["src"], e["own"]), []).append(e)
     for g in by_cfg.values():
         for lst in g.values():
             lst.sort(key=lambda e: json.dumps([e["act"], e["loc"]], sort_keys=True))
@@ -165,7 +169,7 @@ def make_walks(ctx, edges, rng, max_len, budget):
     covered = set()
     cfgs = sorted(by_cfg)
     pending = {c: sum(len(v) for v in by_cfg[c].values()) for c in cfgs}
-    init = json.dumps([])
+    init = json.dumps(["configured", []])
     while any(pending.values()) and (budget is None or steps < budget):
         c = rng.choice([c for c in cfgs if pending[c]])
         g = by_cfg[c]
@@ -312,7 +316,7 @@ def run(ctx):
     edges = [v for v in wk["vectors"] if v.get("t") == "e"]
     if len(edges) < 10000:
         raise vlib.Inconclusive("edge generation incomplete: %d edges" % len(edges))
-    edges.sort(key=lambda e: json.dumps([e["cfg"], e["src"], e["act"], e["loc"]], sort_keys=True))
+    edges.sort(key=lambda e: json.dumps([e["cfg"], e["own"], e["src"], e["act"], e["loc"]], sort_keys=True))
     walks, ecov, etotal = make_walks(ctx, edges, rng, 40, 20000 if ctx.quick else None)
     ctx.log("walking %d of %d edges in %d walks (%d steps)" % (ecov, etotal, len(walks), sum(len(w["steps"]) for w in walks)))
     wrows, wsumm = go_walk(ctx, tables, walks)
